@@ -685,6 +685,9 @@ impl Heap {
         // when the heap goes away, also while unwinding)
         self.log = Some(std::io::BufWriter::new(file))
 """),
+ ("benign-listing-strings-escaped", "src/bytecode/program.rs",
+  """            ProgramObject::String(s) => write!(f, "\\"{}\\"", s),""",
+  """            ProgramObject::String(s) => write!(f, "{:?}", s),"""),
  ("benign-yaml-written-with-document-end", "src/main.rs",
   """            ASTSerializer::YAML  => serde_yaml::to_string(&ast)?,""",
   """            ASTSerializer::YAML  => format!("{}\n...", serde_yaml::to_string(&ast)?.trim_end()),"""),
